@@ -65,6 +65,7 @@ def stepLine (st : DriverState) (line : String) : DriverState × String :=
     (st, Precompile.step (Precompile.cfgOfFacts Generated.precompileRequiredGasLenCheck Generated.precompileIsMutation
       Generated.precompileRunCases Generated.precompileRunDefersOOG Generated.precompileRawStringUses) args)
   | "oracle" :: args => (st, Oracle.step args)
+  | "interleave" :: args => (st, Concurrency.step args)
   | "infl" :: args =>
     let (s', out) := Inflation.step st.infl args
     ({ st with infl := s' }, out)
